@@ -181,6 +181,9 @@ _T = {'quick': 240, 'thorough': 1200}
 _split = [dict(id='r1%d_r2%d_dd%d_mp%d_xa%d_bl%d' % (a, b, c, d, e, f), pre=['r1only == %s' % bool(a), 'r2only == %s' % bool(b), 'dedup == %s' % bool(c), 'filterMP == %s' % bool(d),
                                                                           'filterXA == %s' % bool(e), 'bl == %s' % bool(f)])
           for a in (0, 1) for b in (0, 1) for c in (0, 1) for d in (0, 1) for e in (0, 1) for f in (0, 1)]
+# the heaviest corner (blacklist + XA + dedup all on) is split once more on --no_indels
+_split = [c2 for c in _split for c2 in ([c] if not ('dedup == True' in c['pre'] and 'filterXA == True' in c['pre'] and 'bl == True' in c['pre'])
+                                         else [dict(id=c['id'] + '_ni%d' % g, pre=c['pre'] + ['no_indels == %s' % bool(g)]) for g in (0, 1)])]
 LEMMAS = [
     dict(name='L1_filter', fn='_l1_filter', engine='E1', timeout=_T, replay='replay.C11:replay',
          cases={'quick': [c for c in _split if 'r2only == False' in c['pre']], 'thorough': _split}),
